@@ -77,7 +77,8 @@ class Contract:
     def __init__(self, fn, id, prop, target, env=(), native=None, summaries=None, inline=(), grid=None,
                  bounded_only=False, loop_unroll=0, note="", timeout_ms=10000, cover=True, max_paths=4000,
                  invariants=None, field_types=None, canary=False, expect_refuted=None, self_cls=None, prim_args=True, bind=None, quick=True,
-                 heap_inputs=False, unfold_depth=1):
+                 heap_inputs=False, unfold_depth=1, prune_ms=0):
+        self.prune_ms = prune_ms        # > 0: branch feasibility is checked against the whole path condition (strings included)
         self.quick = quick
         self.unfold_depth = unfold_depth  # definitional unfoldings of recursive ghost functions per application
         self.heap_inputs = heap_inputs  # counter-models rebuild the object graph (own-property dictionaries, prototype links)
